@@ -1,22 +1,64 @@
 #!/usr/bin/env python3
-"""Builds selftest/RESULTS.md from seeded/*/meta.json: which quick checks caught which seeded change."""
-import json, glob, os
+"""Builds selftest/RESULTS.md from seeded/*/meta.json: which quick checks caught which seeded change.
+Prints a short summary (per wave) that DESIGN.md section 8 quotes."""
+import json, glob, os, collections
 here = os.path.dirname(os.path.abspath(__file__))
+
+# changes whose target check does not fire in the quick tier, and why (kept here, not in meta.json,
+# because ingest.sh rewrites meta.json)
+NOTES = {
+    "C05-C": "thorough tier only: needs about 3.5 million unknown chunks (C05 'many-chunks', 6.5 million)",
+    "C08-E": "thorough tier only: needs a text meta whose declared length is the top of the 32-bit range; the unchanged library allocates the declared 4 GB per call (C08 'wrapping-text-lengths', confirmed against the change)",
+    "C16-F": "thorough tier only: needs one track with more than 2^24 events (C16 'beyond-2^24-events', confirmed against the change)",
+    "C14-A": "manifests only on streams outside C14's stated domain (aborted / oversized sysex); caught by C06, which quantifies over all byte streams",
+    "C14-C": "manifests only on streams outside C14's stated domain; caught by C06",
+    "C19-D": "needs 100 or more consecutive empty reads of the source: deliberately outside the domain the C19 monitor drives (an io.Reader may return 0, nil only occasionally)",
+    "C17-F": "detection depends on which helper process dies first: violated (Send fails) in most runs, otherwise inconclusive (probe never observed), never 'held'",
+}
+
 rows = []
 for f in sorted(glob.glob(os.path.join(here, "..", "seeded", "*", "meta.json"))):
     m = json.load(open(f))
     needs = " ".join(m.get("needs_to_manifest", "").split())
-    rows.append((m["id"], m["breaks_property"], m.get("quick_checks_that_fired", []), needs[:230], m.get("origin", "sub-agent")))
+    rows.append(dict(id=m["id"], prop=m["breaks_property"], fired=m.get("quick_checks_that_fired", []), run=m.get("quick_checks_run", []),
+                     needs=needs[:230], commit=m.get("verif_commit", "?"), detail=m.get("first_violation_per_check", "")))
+
 out = ["# Seeded property-breaking changes and the checks that catch them", "",
        "Every change below compiles, passes the 66 pinned tests, comes with a demonstration that fails with it and passes without it",
-       "(all confirmed independently by selftest/ingest.sh in a scratch worktree), and was then run against the quick checks.", "",
-       "| change | breaks | caught by (quick) | target caught | what it needs to manifest |", "|---|---|---|---|---|"]
+       "(all confirmed independently by selftest/ingest.sh in a scratch worktree of /repo HEAD), and was then run against the quick checks",
+       "(column 'run': ALL = all 20 quick checks, otherwise the listed ones: the target property's check plus the checks that fired in an earlier full run).", "",
+       "Waves: A, B realistic changes; C 'hard'; D, E, F, G 'as hard to detect as possible, knowing the defences built so far' (each wave was told the workload dimensions added after the previous ones).", "",
+       "| change | breaks | run | caught by (quick) | target caught | what it needs to manifest |", "|---|---|---|---|---|---|"]
 missed = []
-for id_, prop, fired, needs, origin in rows:
-    ok = prop in fired
-    if not ok:
-        missed.append(id_)
-    out.append(f"| {id_} | {prop} | {' '.join(fired) or '-'} | {'yes' if ok else 'NO'} | {needs} |")
-out += ["", f"{len(rows)} changes, {len(rows) - len(missed)} caught by the check of the property they were written against" + (f"; not caught by their target check: {', '.join(missed)}" if missed else "") + "."]
+per_wave = collections.OrderedDict()
+for r in rows:
+    ok = r["prop"] in r["fired"]
+    wave = r["id"].split("-")[1]
+    w = per_wave.setdefault(wave, [0, 0, []])
+    w[0] += 1
+    if ok:
+        w[1] += 1
+    else:
+        w[2].append(r["id"])
+        missed.append(r["id"])
+    runs = "ALL" if len(r["run"]) >= 20 or not r["run"] else " ".join(r["run"])
+    tgt = "yes" if ok else "NO"
+    if not ok and r["id"] in NOTES:
+        tgt = "no: " + NOTES[r["id"]]
+    if "INCONCLUSIVE" in r["detail"] and not ok:
+        tgt += " (this run: inconclusive)"
+    out.append(f"| {r['id']} | {r['prop']} | {runs} | {' '.join(r['fired']) or '-'} | {tgt} | {r['needs']} |")
+
+summary = ["| wave | changes | caught by the quick check of their own property | not caught by it |", "|---|---|---|---|"]
+for wave, (n, okn, miss) in per_wave.items():
+    summary.append(f"| {wave} | {n} | {okn} | {', '.join(miss) or '-'} |")
+tot = len(rows)
+summary.append(f"| all | {tot} | {tot - len(missed)} | {len(missed)} |")
+out += ["", "## Summary", ""] + summary + [""]
+for k in missed:
+    out.append(f"* {k}: {NOTES.get(k, 'NOT EXPLAINED - a blind spot to close')}")
 open(os.path.join(here, "RESULTS.md"), "w").write("\n".join(out) + "\n")
-print("\n".join(out[-1:]))
+open(os.path.join(here, "RESULTS-summary.md"), "w").write("\n".join(summary) + "\n")
+print("\n".join(summary))
+for k in missed:
+    print("*", k, ":", NOTES.get(k, "NOT EXPLAINED"))
